@@ -13,7 +13,6 @@ TREE = "dendropy.datamodel.treemodel._tree.Tree"
 TREES_EXEMPT = {
     TL + "._parse_and_create_from_stream": "the trees come from lists the reader built under this TreeList's own pseudo-factories (its namespace is handed to the reader)",
     TL + ".__copy__": "shallow copy: shares the very trees of a list over the same namespace",
-    TL + ".__init__": "starts empty; members are added through append()",
 }
 
 
@@ -282,6 +281,12 @@ def run(index, rep, tier):
             rep.check(ok, "R11.10", f.qualname, "the list side removes by equality only", fn_where(f, by_eq[0] if by_eq else None), "OrderedSet.%s removes the identical element from both sides" % name,
                       "OrderedSet.%s takes `%s` out of the hash set (found by hash: identity for TreeList / CharacterMatrix) and then calls `self._item_list.remove(%s)`, which takes out the FIRST element that compares equal: with two empty tree lists over one namespace in a data set, ds.tree_lists.remove(b) leaves b in the list and a in the set - iteration yields b while `a in ds.tree_lists` is True" % (name, p_, p_))
         rep.floor("R11.10", "removal methods of OrderedSet", 2, n10)
+
+    # ---- R11.11 equal labels mean one member by every route
+    with rep.section("R11.11"):
+        rep.rule("R11.11", "equal labels mean one member by every route (C10 R10.16): no library function resolves labels through TaxonNamespace.label_taxon_map() - a last-wins snapshot - and the reader's symbol mapper fills its table first-wins; otherwise reading and appending/migrating bind one label to different Taxon objects of the same namespace, or a copy creates one taxon per occurrence of a label")
+        nb = borrow(index, rep, "C10", {"R10.16"}, "R11.11")
+        rep.floor("R11.11", "borrowed obligations", 1, nb)
 
 
 def _bound(index, fi, w, val):
